@@ -110,6 +110,30 @@ def run(ctx):
                  cap=None if q else st["executions"] + 40000)
     nz = [job(D, "lin", "decl", c, seeds[0]) for D in Ds[:2] for c in ("ball", "half")]
     st = explore(nz, ["noise"], 1, sink, stats=st, name="noisy/b1", pos_ok=lambda k, p, r: p % (6 if q else 2) == 0)
+    # initial-design points: for every design point the unconstrained run evaluates, a half-space whose boundary passes a hair
+    # inside that (mesh-snapped) point, on every axis - the snapped point is infeasible while the raw design point it came
+    # from may be feasible, so a filter applied before the snap lets it through
+    probe = [dict(job(D, g, m, None, seeds[0], target="sphere_out"), want_init_points=True, monitors=[]) for D in (1, 2) for g in ("lin", "lin2") for m in ("det", "decl")]
+    from ..common import pmap
+    from ..harness import execute
+    db = []
+    for pj, pr in zip(probe, pmap(execute, probe)):
+        pts = pr.get("init_points") or []
+        if len(pts) < 3:
+            continue
+        x0p = np.array(pts[0])
+        for p_ in pts[1:]:
+            p_ = np.array(p_)
+            if np.array_equal(p_, x0p):
+                continue
+            for ax in range(pj["D"]):
+                if p_[ax] == x0p[ax]:
+                    continue
+                sg = 1.0 if p_[ax] > x0p[ax] else -1.0
+                c_ = float(p_[ax] - sg * 1e-9 * max(1.0, abs(p_[ax])))
+                db.append(job(pj["D"], pj["geo"], pj["mode"], ["halfax", ax, sg, c_], seeds[0], target="sphere_out"))
+    st = explore(db, ["ans", "noise"], 0, sink, stats=st, name="design-boundary")
+    rep.set("design_boundary_jobs", len(db))
     cells = list(start_cells(seeds[0]))
     st = explore(cells, [], 0, sink, stats=st, name="start-cells")
     sw = sweep_jobs(lambda D, m, o: job(D, "lin", m, "ball_r" if D == 2 else "half", seeds[0], target="sphere_out", opts=o), q, modes=("det", "decl"))
